@@ -330,6 +330,14 @@ def throw_catalogue():
     # a label bound in the guarded operand is in scope of a code block of the recovery operand (one scope for both)
     g("lblshare", [rule("S", act(label("x", recover(seq(label("k", cls(ranges=[("a", "b")])), choice(lit("b"), throw("l1"))), ["l1"],
                                                     act(seq(label("j", cls(chars="cd")), opt(lit("d"))), rec("r")))), rec("s")))])
+    # "skip to the next separator, then resume with the normal rule": the recovery expression consumes input and
+    # can reach a throw of its own label again - its handler is still in force while it runs
+    g("resume", [rule("S", act(label("x", recover(seq(label("i", ref("Itm")), label("t", ref("Tail"))), ["l1"], ref("ErrTail"))), rec("s"))),
+                 rule("Itm", cls(ranges=[("a", "b")])),
+                 rule("Tail", choice(not_(any_()), act(seq(lit(","), label("i", ref("Itm")), label("t", ref("Tail"))), rec("tail")), throw("l1"))),
+                 rule("ErrTail", act(seq(label("g", plus(cls(chars=",", inv=True))), label("t", ref("Tail"))), rec("skipped")))])
+    g("resume2", [rule("S", act(label("x", recover(star(seq(lit("a"), choice(lit("b"), throw("l1")))), ["l1"],
+                                                   act(seq(lit("c"), opt(choice(lit("b"), throw("l1")))), rec("again")))), rec("s")))])
     # throw under choice alternatives with state of labels
     g("labels", [rule("S", act(seq(label("x", lit("a")), label("y", recover(choice(lit("b"), throw("l1")), ["l1"], act(label("z", any_()), rec("r"))))), rec("s")))])
     return out
@@ -352,6 +360,21 @@ def fault_catalogue():
                  rule("B", choice(act(lit("b"), b_fault(2, "f2")), act(lit("a"), b_rec("b2"))))], 3)
     g("and", [rule("S", act(seq(and_(act(lit("a"), b_fault(0, "f0"))), label("x", any_()), opt(any_())), b_rec("s")))], 1)
     g("newline", [rule("S", act(seq(star(lit("\n")), label("x", act(lit("a"), b_fault(0, "f0"))), opt(lit("\n")), opt(act(lit("b"), b_fault(1, "f1")))), b_rec("s")))], 2)
+    return out
+
+
+def fault_lr_catalogue():
+    """Left-recursive grammars with failing code blocks (C11 with -support-left-recursion): a block that returns an
+    error inside a growth attempt that is abandoned runs again, at the same position, on the path that is kept."""
+    out = []
+    def g(name, rules, slots, inv=3):
+        out.append(grammar("fl_" + name, rules, fault_slots=slots, fault_invocations=inv, needs_lr=True))
+    x = lambda: rule("X", act(cls(ranges=[("a", "b")]), b_fault(0, "f0")))
+    g("lr_retry", [rule("S", act(seq(label("e", ref("E")), label("k", opt(ref("Call")))), b_rec("s"))),
+                   rule("E", choice(act(seq(label("l", ref("E")), label("r", ref("X")), not_(lit("("))), b_rec("app")), ref("X")), lr=True),
+                   rule("Call", act(seq(label("f", ref("X")), lit("(")), b_rec("call"))), x()], 1)
+    g("lr_retry2", [rule("S", act(seq(label("e", ref("E")), label("t", opt(act(seq(lit("."), ref("X")), b_fault(1, "f1"))))), b_rec("s"))),
+                    rule("E", choice(act(seq(label("l", ref("E")), lit("."), label("r", ref("X")), lit("!")), b_rec("app")), ref("X")), lr=True), x()], 2)
     return out
 
 
@@ -801,6 +824,35 @@ def random_classes(seed, count):
     return out
 
 
+def random_class_groups(seed, count):
+    """Seeded grammars with two to four classes each (C15, C01): classes of one grammar share Unicode class
+    names, characters and ranges but differ in ^ and i - whatever the builder computes per class must not
+    depend on the classes emitted before it."""
+    rnd = random.Random(seed * 6007 + 29)
+    pool = list("AZaz09_kKiI") + ["\x7f", "\xe9", "\xc9", "K", "İ"]
+    ucls = ["Lu", "Ll", "L", "Nd", "Latin", "Soft_Dotted"]
+    out = []
+    for n in range(count):
+        shared_cls = rnd.sample(ucls, rnd.randint(1, 2))
+        shared_chars = "".join(rnd.sample(pool, rnd.randint(0, 2)))
+        shared_rng = []
+        if rnd.random() < 0.5:
+            a, b = sorted(rnd.sample(pool, 2))
+            shared_rng.append((a, b))
+        cs = []
+        for k in range(rnd.randint(2, 4)):
+            classes = [c for c in shared_cls if rnd.random() < 0.8] or shared_cls[:1]
+            chars = shared_chars if rnd.random() < 0.6 else "".join(rnd.sample(pool, rnd.randint(0, 2)))
+            rng = shared_rng if rnd.random() < 0.6 else []
+            cs.append(cls(chars=chars, ranges=list(rng), classes=list(classes), inv=rnd.random() < 0.3, i=rnd.random() < 0.5))
+        # the classes one after the other on the same rune (predicates), so that one input rune meets every class
+        # (a predicate yields nil either way: the action makes its outcome part of the value)
+        items = [label("p%d" % k, opt(act(and_(c), b_const("T%d" % k)))) for k, c in enumerate(cs)]
+        items.append(label("y", opt(any_())))
+        out.append(grammar("kgrp%d_%d" % (seed, n), [rule("S", act(seq(*items), b_rec("s")))], tags=["random"]))
+    return out
+
+
 def random_lr(seed, count):
     """Seeded random left-recursive grammars of the shape the reference handles (C08):
     E <- E t1 X1 {..} / E t2 X2? {..} / B1 / B2, entered through the leader, with the operators,
@@ -820,13 +872,30 @@ def random_lr(seed, count):
             return opt(ref("N"))
         alts = []
         used = rnd.sample(ops, rnd.randint(1, 3))
+        helpers = []
+        through = set()
+        if n % 3 == 2:
+            # the recursion passes through a helper rule; its name sorts before or after E, which is what a
+            # tie-break of the leader selection would depend on. Either exactly one alternative goes through a
+            # helper next to direct ones (E is then on a one-rule and on a two-rule cycle), or any subset does.
+            if (n // 3) % 2 == 0:
+                if len(used) < 2:
+                    used = rnd.sample(ops, 2)
+                through = {rnd.randrange(len(used))}
+            else:
+                through = {k for k in range(len(used)) if rnd.random() < 0.6}
         for k, o in enumerate(used):
             items = [label("l", ref("E")), lit(o)]
             if rnd.random() < 0.8:
                 items.append(label("r", operand()))
             if rnd.random() < 0.2:
                 items.insert(1, not_(lit("0")))
-            alts.append(act(seq(*items), b_rec("op%d" % k)))
+            alt = act(seq(*items), b_rec("op%d" % k))
+            if k in through:
+                nm = ("A" if rnd.random() < 0.5 else "Z") + "h%d" % k
+                helpers.append(rule(nm, alt))
+                alt = ref(nm)
+            alts.append(alt)
         bases = [ref("N")]
         if rnd.random() < 0.25:
             bases = [opt(ref("N"))]  # a base that can match the empty string
@@ -846,8 +915,8 @@ def random_lr(seed, count):
             s_body = seq(label("e", ref("E")), label("rest", star(seq(lit(","), ref("E")))))
         else:
             s_body = seq(label("p", opt(lit("-"))), label("e", ref("E")))
-        out.append(grammar("lrrnd%d_%d" % (seed, n), [rule("S", act(s_body, b_rec("s"))), e_rule,
-                                                      rule("N", act(plus(cls(ranges=[("0", "1")])), b_text()))], needs_lr=True, tags=["random"]))
+        out.append(grammar("lrrnd%d_%d" % (seed, n), [rule("S", act(s_body, b_rec("s"))), e_rule] + helpers +
+                           [rule("N", act(plus(cls(ranges=[("0", "1")])), b_text()))], needs_lr=True, tags=["random"]))
     return out
 
 
@@ -882,6 +951,19 @@ def random_class_merges(seed, count):
                 rules.append(rule(nm, a))
                 a = ref(nm)
             alts.append(a)
+        if rules and n % 2 == 1:
+            # rule-level redundancy: a rule that is itself a choice over an earlier leaf rule and something else,
+            # referenced next to that leaf rule (NameChar <- Letter / NameStart / Digit, NameStart <- Letter / "_")
+            leaf = rnd.choice(rules)["name"]
+            other = lit(rnd.choice(letters), i=ic) if rnd.random() < 0.6 else one_class()
+            mid = [ref(leaf), other]
+            rnd.shuffle(mid)
+            rules.append(rule("M%d" % n, choice(*mid)))
+            at = rnd.randint(0, len(alts))
+            alts.insert(at, ref("M%d" % n))
+            if rnd.random() < 0.6:
+                # the leaf itself directly in front of or behind the rule that contains it
+                alts.insert(at + rnd.randint(0, 1), ref(leaf))
         if rnd.random() < 0.2:
             alts.append(lit(""))  # the always-matching empty alternative ("-" / "+" / "")
         # (no repetition: one merged class decides one byte, so the path count stays small at any input bound)
